@@ -48,11 +48,16 @@ typedef std::vector<std::vector<uint8_t>> Tuple;
 static const uint32_t TAG_SENTINEL = 0xFFFFFFFFu, TAG_CANARY = 0xFFFFFFFEu;
 static const uint32_t KEY_SENTINEL = 0xFFFFFFFFu;  // greater than all real keys (as in the repo test)
 
-struct Small {  // 8 bytes <= 2*sizeof(size_t): LoserTreeCopy / LoserTreeCopyUnguarded
+static const uint32_t ELEM_MAGIC = 0xC0FFEEu;
+static long g_cmp_foreign = 0;  // comparator calls with an argument that is not an element made by the harness
+
+struct Small {  // 12 bytes <= 2*sizeof(size_t): LoserTreeCopy / LoserTreeCopyUnguarded
     uint32_t key, tag;
+    uint32_t magic;  // set by make(): a value-initialised Small (what the copy trees store for exhausted players) has 0
     static const char* name() { return "small8"; }
-    static Small make(uint32_t k, uint32_t t) { return Small{k, t}; }
-    bool intact() const { return true; }
+    static Small make(uint32_t k, uint32_t t) { return Small{k, t, ELEM_MAGIC}; }
+    bool intact() const { return magic == ELEM_MAGIC; }
+    bool real() const { return magic == ELEM_MAGIC; }
     bool same(const Small& o) const { return key == o.key && tag == o.tag; }
 };
 struct Big {  // 40 bytes > 2*sizeof(size_t): LoserTreePointer / LoserTreePointerUnguarded
@@ -73,14 +78,71 @@ struct Big {  // 40 bytes > 2*sizeof(size_t): LoserTreePointer / LoserTreePointe
             if (pad[i] != mix(key, tag, i)) return false;
         return true;
     }
+    bool real() const { return intact(); }
     bool same(const Big& o) const { return key == o.key && tag == o.tag && memcmp(pad, o.pad, sizeof pad) == 0; }
+};
+// heap-owning, lifetime-tracked element of 16 bytes (still the copy-based loser trees): assignment onto storage that never
+// held a constructed object, reading a destroyed element, leaked temporaries and double destruction are visible
+struct Own {
+    uint32_t key, tag;
+    int* heap;
+    enum { MAGIC = 0x5a5a };
+    static long& live() { static long v = 0; return v; }
+    static long& errors() { static long v = 0; return v; }
+    bool ok() const { return heap != nullptr && *heap == MAGIC; }
+    Own() : key(0), tag(0), heap(new int(MAGIC)) { live()++; }
+    Own(const Own& o) : key(o.key), tag(o.tag), heap(new int(MAGIC)) {
+        if (!o.ok()) errors()++;
+        live()++;
+    }
+    Own& operator=(const Own& o) {
+        if (!o.ok() || !ok()) errors()++;
+        key = o.key, tag = o.tag;
+        return *this;
+    }
+    ~Own() {
+        if (!ok()) errors()++;
+        else *heap = 0;
+        delete heap;
+        heap = nullptr;
+        live()--;
+    }
+    static const char* name() { return "own16"; }
+    static Own make(uint32_t k, uint32_t t) {
+        Own o;
+        o.key = k, o.tag = t;
+        return o;
+    }
+    bool intact() const { return ok(); }
+    bool real() const { return true; }  // (a default-constructed Own owns memory like any other: not distinguishable)
+    bool same(const Own& o) const { return key == o.key && tag == o.tag; }
+};
+static_assert(sizeof(Own) <= 2 * sizeof(size_t), "Own must select the copy-based loser trees");
+template <class T>
+struct Lifetime {
+    static long live() { return 0; }
+    static long take_errors() { return 0; }
+};
+template <>
+struct Lifetime<Own> {
+    static long live() { return Own::live(); }
+    static long take_errors() {
+        long e = Own::errors();
+        Own::errors() = 0;
+        return e;
+    }
 };
 static_assert(sizeof(Small) <= 2 * sizeof(size_t), "Small must select the copy-based loser trees");
 static_assert(sizeof(Big) > 2 * sizeof(size_t) && sizeof(Big) >= 40, "Big must select the pointer-based loser trees");
 
 template <class T>
 struct KeyLess {  // looks at the key only: the tag makes the tie order observable
-    bool operator()(const T& a, const T& b) const { return a.key < b.key; }
+    // A user comparator may only be able to handle real elements (pointers it dereferences, indices into a table): the
+    // guarded trees keep a `sup` flag so that the value-initialised key of an exhausted player is never compared.
+    bool operator()(const T& a, const T& b) const {
+        if (!a.real() || !b.real()) ++g_cmp_foreign;
+        return a.key < b.key;
+    }
 };
 
 // ---------------------------------------------------------------------------------------------
@@ -101,7 +163,7 @@ static_assert(tlx::MWMA_LOSER_TREE == 0 && tlx::MWMA_LOSER_TREE_COMBINED == 1 &&
 struct Cfg {
     int entry, algo;  // algo 4 = default argument (base only)
     bool stable, sent;
-    std::string op[2];  // "<entry>[<algo>,<elemtype>]" for Small / Big
+    std::string op[3];  // "<entry>[<algo>,<elemtype>]" for Small / Big / Own
 };
 static std::vector<Cfg> g_cfg;
 
@@ -114,6 +176,7 @@ static void build_cfgs() {
             c.entry = e, c.algo = a, c.stable = ENTRY_STABLE[e], c.sent = ENTRY_SENT[e];
             c.op[0] = std::string(ENTRY_NAME[e]) + "[" + ALGO_NAME[a] + "," + Small::name() + "]";
             c.op[1] = std::string(ENTRY_NAME[e]) + "[" + ALGO_NAME[a] + "," + Big::name() + "]";
+            c.op[2] = std::string(ENTRY_NAME[e]) + "[" + ALGO_NAME[a] + "," + Own::name() + "]";
             g_cfg.push_back(c);
         }
 }
@@ -161,8 +224,15 @@ static Tuple tuple_parse(const std::string& s) {
 static unsigned long long n_merges = 0, n_inputs = 0, n_nontrivial = 0, n_elems = 0;
 
 template <class T>
-static T* alloc_block(size_t n) {  // exact-size heap block: ASan redzones directly around it
-    return static_cast<T*>(malloc(n * sizeof(T)));
+static T* alloc_block(size_t n) {  // exact-size heap block: ASan redzones directly around it; elements default-constructed
+    T* p = static_cast<T*>(malloc(n * sizeof(T)));
+    for (size_t i = 0; i < n; ++i) new (p + i) T();
+    return p;
+}
+template <class T>
+static void free_block(T* p, size_t n) {
+    for (size_t i = 0; i < n; ++i) p[i].~T();
+    free(p);
 }
 
 template <class T>
@@ -215,7 +285,21 @@ static void run_tuple_T(const Tuple& tp, const std::string& rp, int ti) {
             for (size_t j = 0; j < total; ++j) out[j] = T::make(0xCA000000u + uint32_t(j), TAG_CANARY);
             const char* op = c.op[ti].c_str();
             vh::at_op(op);
+            long live_before = Lifetime<T>::live();
+            g_cmp_foreign = 0;
             T* ret = call_tlx<T>(c, seqs, target, (ptrdiff_t)len);
+            if (g_cmp_foreign)
+                vh::fail(std::string(op) + "/comparator-argument", rp,
+                         vh::fmt("seqs=%s length=%zu %s: the comparator was called %ld time(s) with an object that is not an input element or sentinel "
+                                 "(e.g. the value-initialised key of an exhausted player)", rp.c_str(), len, op, g_cmp_foreign));
+            if (long e = Lifetime<T>::take_errors())
+                vh::fail(std::string(op) + "/element-lifetime", rp,
+                         vh::fmt("seqs=%s length=%zu %s: %ld use(s) of an element that is not alive (assignment onto raw storage, read of a destroyed element, double destruction)",
+                                 rp.c_str(), len, op, e));
+            if (Lifetime<T>::live() != live_before)
+                vh::fail(std::string(op) + "/element-leak", rp,
+                         vh::fmt("seqs=%s length=%zu %s: %ld element instance(s) created by the merge are still alive after it returned", rp.c_str(), len, op,
+                                 Lifetime<T>::live() - live_before));
             ++n_merges;
             n_elems += len;
 
@@ -295,8 +379,10 @@ static void run_tuple_T(const Tuple& tp, const std::string& rp, int ti) {
             }
         }
     }
-    free(out);
-    for (int i = 0; i < k; ++i) free(plain[i]), free(sent[i]);
+    free_block(out, total);
+    for (int i = 0; i < k; ++i) free_block(plain[i], tp[i].size()), free_block(sent[i], tp[i].size() + 1);
+    pristine.clear();
+    Lifetime<T>::take_errors();  // (harness-side copies of intact elements do not count; reset for the next tuple)
 }
 
 static void run_tuple(const Tuple& tp) {
@@ -307,6 +393,7 @@ static void run_tuple(const Tuple& tp) {
     alarm(10);
     run_tuple_T<Small>(tp, rp, 0);
     run_tuple_T<Big>(tp, rp, 1);
+    run_tuple_T<Own>(tp, rp, 2);
     // outcome classes: show that the enumeration reaches the interesting shapes for every k
     int k = (int)tp.size(), empties = 0;
     size_t total = 0, maxlen = 0;
